@@ -15,7 +15,9 @@ Facts with two recognised values (they select the as-written or the repaired var
 property theorems of props/C08.v are stated for the value found on the current tree, so a regression breaks
 the proof step and the oracle then looks for the failing input):
   restore_in_finally        every restoring assignment of operator_expectation sits in a `finally:` body
-  opexp_uses_reference      operator_expectation mentions self.reference_circuit
+  opexp_uses_reference      operator_expectation prepares (self.reference_circuit if ref_state is None else ref_state) +
+                            ansatz with default ref_state=None (True), or ref_state + ansatz with default Circuit()
+                            (False); any other shape is refused
   scbk_case_sensitive       the scbk test is `self.qubit_mapping == "scbk"` (no lower()/upper())
   defaults_guarded_by_scbk  the molecule's active-space data are taken as defaults only inside the scbk test
 
@@ -155,9 +157,10 @@ FALLBACK = {
     "build_pen_args": [("fermion_operator", "pen_ferm"), ("mapping", "self.qubit_mapping"),
                        ("n_spinorbitals", "self.molecule.n_active_sos"), ("n_electrons", "self.molecule.n_active_electrons"),
                        ("up_then_down", "self.up_then_down"), ("spin", "self.molecule.active_spin")],
-    "restore_in_finally": True, "opexp_uses_reference": False, "defl_key_is_ansatz_width": False, "scbk_case_sensitive": False,
+    "restore_in_finally": True, "opexp_uses_reference": True, "defl_key_is_ansatz_width": False, "scbk_case_sensitive": False,
     "defaults_guarded_by_scbk": False, "energy_compose_ok": True, "defl_sim_order_ok": True,
-    "opexp_circuit": "ref_state + self.ansatz.circuit", "defl_key_width": "overlap_circuit.width",
+    "opexp_circuit": "(self.reference_circuit if ref_state is None else ref_state) + self.ansatz.circuit",
+    "opexp_ref_default": "None", "defl_key_width": "overlap_circuit.width",
     "defl_sim": "circ + circuit.inverse()", "scbk_test": "self.qubit_mapping.lower() == 'scbk'",
 }
 
@@ -178,9 +181,21 @@ def extract(repo):
     if len(circ) != 1:
         raise TranslateError("operator_expectation: expected one assignment to `circuit`, found %d" % len(circ))
     t["opexp_circuit"] = _src(circ[0].value)
-    if "self.ansatz.circuit" not in t["opexp_circuit"]:
-        raise TranslateError("operator_expectation: circuit does not contain self.ansatz.circuit: %s" % t["opexp_circuit"])
-    t["opexp_uses_reference"] = "reference_circuit" in ast.unparse(fn)
+    # default of the ref_state argument
+    names = [a.arg for a in fn.args.args]
+    if "ref_state" not in names:
+        raise TranslateError("operator_expectation: no ref_state argument")
+    k = names.index("ref_state") - (len(names) - len(fn.args.defaults))
+    if k < 0:
+        raise TranslateError("operator_expectation: ref_state has no default")
+    t["opexp_ref_default"] = _src(fn.args.defaults[k])
+    asis = (t["opexp_circuit"] == "ref_state + self.ansatz.circuit" and t["opexp_ref_default"] == "Circuit()")
+    repaired = (t["opexp_circuit"] == "(self.reference_circuit if ref_state is None else ref_state) + self.ansatz.circuit"
+                and t["opexp_ref_default"] == "None")
+    if not (asis or repaired):
+        raise TranslateError("operator_expectation: unrecognised state preparation `circuit = %s` with default ref_state=%s"
+                             % (t["opexp_circuit"], t["opexp_ref_default"]))
+    t["opexp_uses_reference"] = repaired
     scbk = [n for n in ast.walk(fn) if isinstance(n, ast.Compare) and len(n.ops) == 1 and isinstance(n.ops[0], ast.Eq)
             and isinstance(n.comparators[0], ast.Constant) and isinstance(n.comparators[0].value, str)
             and n.comparators[0].value.lower() == "scbk"]
